@@ -1,8 +1,13 @@
 import Beetswap.Proofs.NetDefs
 import Beetswap.Proofs.Server
+import Beetswap.Proofs.NetBDrain
 /-!
 The serving node `b` of the composition: `BInv` is inductive, and what `drainB` / `deliverAB` do to
 `b`'s record of `a`'s wants (`bset`) and to the blocks in flight (`wireBA`).
+
+Helpers: `NetBBase.lean` (`absorbB`, the trivial client half of `b`), `NetBInv.lean` (the task part
+of `BInv` as an invariant `MInv` of the server half, along `pollTask` / `complete` / `incoming`),
+`NetBDrain.lean` (`Server.drain` against `MInv`).
 -/
 namespace Beetswap.Proofs.Net
 open Std Beetswap.Net Beetswap.Wl
@@ -13,24 +18,193 @@ def _root_.Beetswap.Net.Act.touchesB : Act → Bool
   | .drainB | .lookupB _ | .deliverAB => true
   | _ => false
 
+/-! ### The steps, unfolded -/
+
+theorem absorbA_frame (outs : List Out) (s : State) :
+    (absorbA s outs).b = s.b ∧ (absorbA s outs).storeB = s.storeB ∧
+    (absorbA s outs).callsB = s.callsB ∧ (absorbA s outs).wireBA = s.wireBA := by
+  induction outs generalizing s with
+  | nil => exact ⟨rfl, rfl, rfl, rfl⟩
+  | cons o os ih =>
+    have : absorbA s (o :: os) = absorbA (absorbA s [o]) os := by simp [absorbA]
+    rw [this]
+    obtain ⟨h1, h2, h3, h4⟩ := ih (absorbA s [o])
+    rw [h1, h2, h3, h4]
+    cases o <;> exact ⟨rfl, rfl, rfl, rfl⟩
+
+theorem lookupB_eq (s : State) (n : Nat) :
+    step s (.lookupB n) =
+      match s.callsB.find? (·.1 == n) with
+      | some (_, k) =>
+        { s with b := (Node.step s.b (.complete n (lookupRes s.storeB k))).1,
+                 callsB := s.callsB.filter (·.1 != n) }
+      | none => s := rfl
+
+theorem deliverAB_eq (s : State) (m : WlMsg) (rest : List WlMsg) (hw : s.wireAB = m :: rest) :
+    step s .deliverAB =
+      { s with a := (Node.step s.a (.sending 1 .ready)).1,
+               b := { s.b with server := Server.incoming s.b.server 0 m.full (entriesOf m) },
+               wireAB := rest } := by
+  simp only [step, hw]
+  rfl
+
+theorem node_complete (b : Node.State) (n : Nat) (r : StoreRes) (hc : b.client.tasks = []) :
+    (Node.step b (.complete n r)).1 =
+      match Server.complete b.server n r with
+      | some sv => { b with server := sv }
+      | none => b := by
+  have : Client.complete b.client n r = none := by
+    unfold Client.complete; rw [hc]; rfl
+  simp only [Node.step, this]
+  cases Server.complete b.server n r <;> rfl
+
+/-- `drainB` with a trivial client half at `b`, field by field -/
+theorem drainB_fields (s : State) (hc : ClTriv s.b.client) :
+    (step s .drainB).b.server = (Server.drain s.b.server s.b.seq (fun _ => none)).1 ∧
+    (step s .drainB).b.seq = (Server.drain s.b.server s.b.seq (fun _ => none)).2.1 ∧
+    ClTriv (step s .drainB).b.client ∧
+    (step s .drainB).callsB =
+      s.callsB ++ (Server.drain s.b.server s.b.seq (fun _ => none)).2.2.filterMap outCalls ∧
+    (step s .drainB).wireBA =
+      s.wireBA ++ (Server.drain s.b.server s.b.seq (fun _ => none)).2.2.filterMap outBlocks ∧
+    (step s .drainB).storeB = s.storeB := by
+  obtain ⟨n1, n2, n3, n4, n5⟩ := node_drain_triv s.b hc
+  rw [drainB_eq, absorbB_spec]
+  dsimp only
+  rw [n4, n5]
+  exact ⟨n1, n2, n3, rfl, rfl, rfl⟩
+
 theorem step_storeB (s : State) (act : Act) : (step s act).storeB = s.storeB := by
-  sorry
+  cases act with
+  | get k => rfl
+  | cancel q => rfl
+  | refresh => rfl
+  | drainA =>
+    simp only [step]
+    exact (absorbA_frame _ _).2.1
+  | drainB => rw [drainB_eq, absorbB_spec]
+  | lookupA n => simp only [step]; split <;> rfl
+  | putDoneA n => simp only [step]; split <;> rfl
+  | lookupB n => rw [lookupB_eq]; split <;> rfl
+  | deliverAB => simp only [step]; split <;> rfl
+  | deliverBA => simp only [step]; split <;> rfl
 
 /-- actions of `a` leave `b`, its calls and the store alone; `wireBA` can only lose its head
 (`deliverBA`) -/
 theorem step_b_frame (s : State) (act : Act) (h : act.touchesB = false) :
     (step s act).b = s.b ∧ (step s act).callsB = s.callsB ∧
     (∀ bs, bs ∈ (step s act).wireBA → bs ∈ s.wireBA) := by
-  sorry
+  cases act with
+  | get k => exact ⟨rfl, rfl, fun _ h => h⟩
+  | cancel q => exact ⟨rfl, rfl, fun _ h => h⟩
+  | refresh => exact ⟨rfl, rfl, fun _ h => h⟩
+  | drainA =>
+    simp only [step]
+    refine ⟨(absorbA_frame _ _).1, (absorbA_frame _ _).2.2.1, ?_⟩
+    intro bs hbs
+    rw [(absorbA_frame _ _).2.2.2] at hbs
+    exact hbs
+  | drainB => cases h
+  | lookupA n =>
+    simp only [step]
+    split
+    · exact ⟨rfl, rfl, fun _ h => h⟩
+    · exact ⟨rfl, rfl, fun _ h => h⟩
+  | putDoneA n =>
+    simp only [step]
+    split
+    · exact ⟨rfl, rfl, fun _ h => h⟩
+    · exact ⟨rfl, rfl, fun _ h => h⟩
+  | lookupB n => cases h
+  | deliverAB => cases h
+  | deliverBA =>
+    simp only [step]
+    split
+    · exact ⟨rfl, rfl, fun _ h => h⟩
+    · rename_i bs rest hw
+      refine ⟨rfl, rfl, ?_⟩
+      intro x hx
+      rw [hw]
+      exact List.mem_cons_of_mem _ hx
 
 theorem bset_frame (s : State) (act : Act) (h : act.touchesB = false) : bset (step s act) = bset s := by
-  sorry
+  unfold bset
+  rw [(step_b_frame s act h).1]
+
+/-! ### `BInv` and `MInv` -/
+
+theorem BInv.minv {s : State} (h : BInv s) :
+    MInv s.storeB (bset s) s.b.server s.b.seq s.callsB s.b.server.runq :=
+  ⟨h.ids_nodup, h.ids_lt, h.sched, h.ready_ok, h.results_ok, h.calls_task, h.calls_lt,
+   h.calls_nodup, h.wait_lt, h.wait_inj, by rw [h.outq_nil]; simp,
+   fun k hk d hd => Or.inr (h.pending k hk d hd)⟩
+
+theorem BInv.cl {s : State} (h : BInv s) : ClTriv s.b.client :=
+  ⟨h.cl_tasks, h.cl_runq, h.cl_queue, h.cl_nb⟩
+
+theorem binv_of_minv {s : State}
+    (hm : MInv s.storeB (bset s) s.b.server s.b.seq s.callsB s.b.server.runq)
+    (hi : Spec.ServerSpec.Inv s.b.server) (h0 : ∃ set, s.b.server.wl[0]? = some set)
+    (hq : s.b.server.outq = []) (hc : ClTriv s.b.client)
+    (hw : ∀ bs ∈ s.wireBA, ∀ kd ∈ bs, s.storeB[kd.1]? = some kd.2) : BInv s := by
+  refine ⟨hi, h0, hq, hc.1, hc.2.1, hc.2.2.1, hc.2.2.2, hm.ids_nodup, hm.ids_lt, hm.sched,
+    hm.ready_ok, hm.results_ok, hm.calls_task, hm.calls_lt, hm.calls_nodup, hm.wait_lt,
+    hm.wait_inj, hw, ?_⟩
+  intro k hk d hd
+  rcases hm.pend k hk d hd with h1 | h1
+  · rw [hq] at h1; cases h1
+  · exact h1
+
+/-- a step that leaves `b`, its calls and the store alone and adds nothing to `wireBA` -/
+theorem binv_frame {s s' : State} (h : BInv s) (hb : s'.b = s.b) (hc : s'.callsB = s.callsB)
+    (hs : s'.storeB = s.storeB) (hw : ∀ bs, bs ∈ s'.wireBA → bs ∈ s.wireBA) : BInv s' := by
+  have hset : bset s' = bset s := by unfold bset; rw [hb]
+  apply binv_of_minv
+  · rw [hs, hset, hb, hc]; exact h.minv
+  · rw [hb]; exact h.sinv
+  · rw [hb]; exact h.wl0
+  · rw [hb]; exact h.outq_nil
+  · rw [hb]; exact h.cl
+  · intro bs hbs kd hkd
+    rw [hs]
+    exact h.wire_ok bs (hw bs hbs) kd hkd
 
 theorem binv_init (store : KMap Nat) : BInv (init store) := by
-  sorry
-
-theorem binv_step (s : State) (act : Act) (h : BInv s) : BInv (step s act) := by
-  sorry
+  have hb : (init store).b.server = Server.connect {} 0 := rfl
+  have hwl : (Server.connect {} 0).wl[0]? = some ∅ := by
+    unfold Server.connect
+    rw [if_neg (by simp)]
+    simp
+  have htasks : (Server.connect {} 0).tasks = [] := by
+    unfold Server.connect; split <;> rfl
+  have hrunq : (Server.connect {} 0).runq = [] := by
+    unfold Server.connect; split <;> rfl
+  have houtq : (Server.connect {} 0).outq = [] := by
+    unfold Server.connect; split <;> rfl
+  have hcalls : (init store).callsB = [] := rfl
+  have hwire : (init store).wireBA = [] := rfl
+  have hset : bset (init store) = ∅ := by
+    unfold bset; rw [hb, hwl]; rfl
+  apply binv_of_minv
+  · rw [hb, hcalls, hset]
+    refine ⟨?_, ?_, ?_, ?_, ?_, ?_, ?_, ?_, ?_, ?_, ?_, ?_⟩
+    · rw [htasks]; simp
+    · rw [htasks]; simp
+    · rw [htasks]; simp
+    · rw [htasks]; simp
+    · rw [htasks]; simp
+    · simp
+    · simp
+    · simp
+    · rw [htasks]; simp
+    · rw [htasks]; simp
+    · rw [houtq]; simp
+    · intro k hk; exact absurd hk Server.kset_not_mem_empty
+  · rw [hb]; exact Server.inv_connect _ _ Server.inv_init
+  · rw [hb]; exact ⟨_, hwl⟩
+  · rw [hb]; exact houtq
+  · exact ⟨rfl, rfl, rfl, rfl⟩
+  · rw [hwire]; simp
 
 /-! ### `drainB` -/
 
@@ -39,21 +213,59 @@ theorem drainB_frame (s : State) :
     (step s .drainB).a = s.a ∧ (step s .drainB).wireAB = s.wireAB ∧ (step s .drainB).callsA = s.callsA ∧
     (step s .drainB).putsA = s.putsA ∧ (step s .drainB).answered = s.answered ∧
     (step s .drainB).errors = s.errors := by
-  sorry
+  rw [drainB_eq, absorbB_spec]
+  exact ⟨rfl, rfl, rfl, rfl, rfl, rfl⟩
 
 theorem drainB_wire (s : State) : ∃ new, (step s .drainB).wireBA = s.wireBA ++ new := by
-  sorry
+  rw [drainB_eq, absorbB_spec]
+  exact ⟨_, rfl⟩
+
+/-- everything about `drainB` from a state satisfying `BInv` -/
+theorem drainB_spec (s : State) (h : BInv s) :
+    BInv (step s .drainB) ∧
+    (∀ k, k ∈ bset (step s .drainB) → k ∈ bset s) ∧
+    (∀ k, k ∈ bset s → k ∉ bset (step s .drainB) →
+      ∃ bs ∈ (step s .drainB).wireBA, ∃ d, (k, d) ∈ bs) := by
+  obtain ⟨e1, e2, e3, e4, e5, e6⟩ := drainB_fields s h.cl
+  obtain ⟨d1, d2, d3, d4, d5, d6⟩ := server_drain_minv h.sinv h.minv
+  have hset : bset (step s .drainB) =
+      ((Server.drain s.b.server s.b.seq (fun _ => none)).1.wl[0]?).getD ∅ := by
+    unfold bset; rw [e1]
+  refine ⟨?_, ?_, ?_⟩
+  · apply binv_of_minv
+    · rw [e6, hset, e1, e2, e4]; exact d1
+    · rw [e1]; exact Server.inv_step s.b.server s.b.seq (.drain (fun _ => none)) h.sinv
+    · rw [e1]
+      obtain ⟨set, hs⟩ := h.wl0
+      have := d3 0
+      rw [hs] at this
+      cases hg : (Server.drain s.b.server s.b.seq (fun _ => none)).1.wl[0]? with
+      | none => rw [hg] at this; cases this
+      | some set' => exact ⟨set', rfl⟩
+    · rw [e1]; exact d2
+    · exact e3
+    · intro bs hbs kd hkd
+      rw [e6]
+      rw [e5, List.mem_append] at hbs
+      rcases hbs with hbs | hbs
+      · exact h.wire_ok bs hbs kd hkd
+      · exact d5 bs hbs kd hkd
+  · intro k hk
+    rw [hset] at hk
+    exact d4 k hk
+  · intro k hk hnk
+    rw [hset] at hnk
+    obtain ⟨bs, hbs, d, hd⟩ := d6 k hk hnk
+    exact ⟨bs, by rw [e5]; exact List.mem_append_right _ hbs, d, hd⟩
 
 /-- `b` only forgets wants while draining … -/
 theorem drainB_bset_sub (s : State) (h : BInv s) (k : Nat) (hk : k ∈ bset (step s .drainB)) :
-    k ∈ bset s := by
-  sorry
+    k ∈ bset s := (drainB_spec s h).2.1 k hk
 
 /-- … and every want it forgets has been served: the block is on the wire -/
 theorem drainB_lost (s : State) (h : BInv s) (k : Nat) (hk : k ∈ bset s)
     (hn : k ∉ bset (step s .drainB)) :
-    ∃ bs ∈ (step s .drainB).wireBA, ∃ d, (k, d) ∈ bs := by
-  sorry
+    ∃ bs ∈ (step s .drainB).wireBA, ∃ d, (k, d) ∈ bs := (drainB_spec s h).2.2 k hk hn
 
 /-! ### `lookupB` -/
 
@@ -62,21 +274,60 @@ theorem lookupB_frame (s : State) (n : Nat) :
     (step s (.lookupB n)).wireBA = s.wireBA ∧ (step s (.lookupB n)).callsA = s.callsA ∧
     (step s (.lookupB n)).putsA = s.putsA ∧ (step s (.lookupB n)).answered = s.answered ∧
     (step s (.lookupB n)).errors = s.errors := by
-  sorry
+  rw [lookupB_eq]
+  split <;> exact ⟨rfl, rfl, rfl, rfl, rfl, rfl, rfl⟩
 
-theorem lookupB_bset (s : State) (h : BInv s) (n : Nat) : bset (step s (.lookupB n)) = bset s := by
-  sorry
+/-- everything about `lookupB` from a state satisfying `BInv` -/
+theorem lookupB_spec (s : State) (h : BInv s) (n : Nat) :
+    BInv (step s (.lookupB n)) ∧ bset (step s (.lookupB n)) = bset s := by
+  rw [lookupB_eq]
+  cases hf : s.callsB.find? (·.1 == n) with
+  | none => exact ⟨h, rfl⟩
+  | some c =>
+    obtain ⟨n', k⟩ := c
+    have hn : n' = n := by simpa using List.find?_some hf
+    subst hn
+    have hc : (n', k) ∈ s.callsB := List.mem_of_find?_eq_some hf
+    obtain ⟨sv', c1, c2, c3, c4, c5, c6⟩ := minv_complete h.minv hc
+    have hb : (Node.step s.b (.complete n' (lookupRes s.storeB k))).1 = { s.b with server := sv' } := by
+      rw [node_complete _ _ _ h.cl_tasks, c1]
+    dsimp only
+    rw [hb]
+    have hset : bset { s with b := { s.b with server := sv' }, callsB := s.callsB.filter (·.1 != n') } = bset s := by
+      unfold bset
+      show (sv'.wl[0]?).getD ∅ = _
+      rw [c3]
+    refine ⟨?_, hset⟩
+    apply binv_of_minv
+    · rw [hset]; exact c2
+    · exact Server.inv_congr (s := s.b.server) c3 c4 c6 h.sinv
+    · show ∃ set, sv'.wl[0]? = some set
+      rw [c3]; exact h.wl0
+    · show sv'.outq = []
+      rw [c5]; exact h.outq_nil
+    · exact h.cl
+    · exact h.wire_ok
+
+theorem lookupB_bset (s : State) (h : BInv s) (n : Nat) : bset (step s (.lookupB n)) = bset s :=
+  (lookupB_spec s h n).2
 
 /-! ### `deliverAB` -/
 
 theorem deliverAB_nil (s : State) (hw : s.wireAB = []) : step s .deliverAB = s := by
-  sorry
+  simp only [step, hw]
 
 /-- the wantlist is processed against `b`'s record -/
 theorem deliverAB_bset (s : State) (h : BInv s) (m : WlMsg) (rest : List WlMsg)
     (hw : s.wireAB = m :: rest) :
     bset (step s .deliverAB) = (Server.processWantlist (bset s) m.full (entriesOf m)).1 := by
-  sorry
+  obtain ⟨cur, hc⟩ := h.wl0
+  rw [deliverAB_eq s m rest hw]
+  have hb : bset s = cur := by unfold bset; rw [hc]; rfl
+  unfold bset
+  show ((Server.incoming s.b.server 0 m.full (entriesOf m)).wl[0]?).getD ∅ = _
+  rw [(incoming_fields s.b.server 0 m.full (entriesOf m) cur hc).1, Server.kmap_get_insert,
+    if_pos rfl, hc]
+  rfl
 
 theorem deliverAB_frame (s : State) (m : WlMsg) (rest : List WlMsg) (hw : s.wireAB = m :: rest) :
     (step s .deliverAB).wireAB = rest ∧ (step s .deliverAB).wireBA = s.wireBA ∧
@@ -84,18 +335,73 @@ theorem deliverAB_frame (s : State) (m : WlMsg) (rest : List WlMsg) (hw : s.wire
     (step s .deliverAB).callsB = s.callsB ∧ (step s .deliverAB).answered = s.answered ∧
     (step s .deliverAB).errors = s.errors ∧
     (step s .deliverAB).a = (Node.step s.a (.sending 1 .ready)).1 := by
-  sorry
+  rw [deliverAB_eq s m rest hw]
+  exact ⟨rfl, rfl, rfl, rfl, rfl, rfl, rfl, rfl⟩
+
+theorem binv_deliverAB (s : State) (h : BInv s) : BInv (step s .deliverAB) := by
+  cases hw : s.wireAB with
+  | nil => rw [deliverAB_nil s hw]; exact h
+  | cons m rest =>
+    obtain ⟨cur, hc⟩ := h.wl0
+    have hb : bset s = cur := by unfold bset; rw [hc]; rfl
+    have hset := deliverAB_bset s h m rest hw
+    rw [hb] at hset
+    have hm := h.minv
+    rw [hb] at hm
+    have hm' := minv_incoming hm 0 m.full (entriesOf m) hc
+    obtain ⟨f1, f2, f3, _, _, _⟩ := incoming_fields s.b.server 0 m.full (entriesOf m) cur hc
+    rw [deliverAB_eq s m rest hw] at hset ⊢
+    apply binv_of_minv
+    · rw [hset]; exact hm'
+    · exact Server.inv_incoming _ _ _ _ h.sinv
+    · show ∃ set, (Server.incoming s.b.server 0 m.full (entriesOf m)).wl[0]? = some set
+      rw [f1, Server.kmap_get_insert, if_pos rfl]
+      exact ⟨_, rfl⟩
+    · show (Server.incoming s.b.server 0 m.full (entriesOf m)).outq = []
+      rw [f2]; exact h.outq_nil
+    · exact h.cl
+    · exact h.wire_ok
+
+/-! ### `BInv` is inductive -/
+
+theorem binv_step (s : State) (act : Act) (h : BInv s) : BInv (step s act) := by
+  by_cases ht : act.touchesB = false
+  · obtain ⟨f1, f2, f3⟩ := step_b_frame s act ht
+    exact binv_frame h f1 f2 (step_storeB s act) f3
+  · cases act with
+    | drainB => exact (drainB_spec s h).1
+    | lookupB n => exact (lookupB_spec s h n).1
+    | deliverAB => exact binv_deliverAB s h
+    | _ => exact absurd rfl ht
+
+theorem binv_reachable (store : KMap Nat) (s : State) (h : Reachable store s) : BInv s := by
+  induction h with
+  | init => exact binv_init store
+  | step act _ ih => exact binv_step _ act ih
 
 /-! ### Quiescence of `b` -/
 
 /-- with nothing to run and no call pending, `b` has no lookup task left … -/
 theorem binv_idle_tasks (s : State) (h : BInv s) (hr : s.b.server.runq = []) (hc : s.callsB = []) :
     s.b.server.tasks = [] := by
-  sorry
+  cases ht : s.b.server.tasks with
+  | nil => rfl
+  | cons t ts =>
+    exfalso
+    have hm : t ∈ s.b.server.tasks := by rw [ht]; exact List.mem_cons_self ..
+    rcases h.sched t hm with ⟨h1, _⟩ | ⟨n, k, rest, _, _, h3⟩
+    · rw [hr] at h1; cases h1
+    · rw [hc] at h3; cases h3
 
 /-- … so it records no want for a block it holds -/
 theorem binv_idle_not_held (s : State) (h : BInv s) (hr : s.b.server.runq = []) (hc : s.callsB = [])
     (k : Nat) (hk : k ∈ bset s) : s.storeB[k]? = none := by
-  sorry
+  cases hd : s.storeB[k]? with
+  | none => rfl
+  | some d =>
+    exfalso
+    obtain ⟨t, ht, _⟩ := h.pending k hk d hd
+    rw [binv_idle_tasks s h hr hc] at ht
+    cases ht
 
 end Beetswap.Proofs.Net
